@@ -112,6 +112,17 @@ type inst struct {
 	prevC   []int
 	pkeys   map[string][]byte // path key per key (the key itself, or its Keccak hash)
 	history []string          // abstract actions applied since reset (for records)
+	notes   []*mismatch       // findings that do not end the behaviour (one per class)
+}
+
+// note records a property-level finding without abandoning the behaviour.
+func (in *inst) note(m *mismatch) {
+	for _, n := range in.notes {
+		if n.class == m.class {
+			return
+		}
+	}
+	in.notes = append(in.notes, m)
 }
 
 func (in *inst) reset() error {
@@ -347,12 +358,16 @@ func (in *inst) checkProofs(t trieAPI, root common.Hash, content []int) *mismatc
 		in.st.proofs++
 		val, _, err := trie.VerifyProof(root, pk, pdb)
 		if root == emptyRoot {
-			// the empty trie has no nodes, hence no proof; the verifier fails closed
+			// the empty trie has no nodes: Prove emits nothing, and the (true) absence claim
+			// should verify against the empty root
 			if err == nil && len(val) != 0 {
 				return mm("proof-wrong-value", "VerifyProof(emptyRoot, %x) returned value %x", key, val)
 			}
 			if err != nil {
 				in.st.emptyProofRejected++
+				if emptyTrieProofIsFinding {
+					in.note(mm("empty-trie-absence-proof", "the trie is empty, Prove(%x) succeeds and emits %d nodes, but VerifyProof(emptyRoot, %x, proof) fails instead of confirming the absence: %v", key, pdb.Len(), key, err))
+				}
 			}
 			continue
 		}
